@@ -37,6 +37,35 @@ claim(
     "DESIGN.md §3 C03",
 )
 
+claim(
+    "C04",
+    "Hypothesis property-based testing: Ad vs numpy conjugation projected on the algebra basis, ad vs bracket vs matrix commutator, antisymmetry/Jacobi, Ad_exp = expm(ad) (scipy), Ad homomorphism, shapes",
+    "Exploration: for every group/algebra and every SO(3) parameterisation, generated (X, Y, x, y, z) are checked against matrix conjugation and commutators computed with numpy on cyecca's own matrix forms; the vee map is a least-squares projection on the basis hat(e_i) with closure check, so no index convention is trusted.",
+    "Trusts numpy/scipy linear algebra. Operations that raise NotImplementedError (Ad/bracket of direct products) are out of scope and listed under excluded in the evidence.",
+    "DESIGN.md §3 C04",
+)
+claim(
+    "C05",
+    "Hypothesis property-based testing against an independent derivative of the matrix exponential (complex-step through scipy expm / 80-digit mpmath central differences); J J^-1 = I, J_l = Ad J_r = J_r(-x); exact directional derivatives of quaternion/MRP -> matrix maps for the kinematic Jacobians",
+    "Exploration: so(3), se(3), se_2(3) vectors with rotation angle forced through all strata up to 6 rad and arbitrary translational parts; every column of J_l/J_r (and left_Q/right_Q) is compared with d/de expm(hat(x+e e_i)) expm(-hat(x)); group-level Jacobians are checked through R' = [w]x R / R [w]x and q.q' = 0.",
+    "Trusts scipy.linalg.expm on complex matrices (complex-step differentiation, h = 1e-30) in the quick tier and mpmath in the thorough tier; hat is cyecca's own basis.",
+    "DESIGN.md §3 C05",
+)
+claim(
+    "C06",
+    "Hypothesis property-based testing with forced small-angle stratification against a 50-digit mpmath oracle (absolute 1e-9), plus finiteness of casadi.jacobian at and around zero",
+    "Exploration: every public function that consumes a series coefficient (so3/se3/se23 Jacobians, inverses, Q blocks; exp and log of 13 groups; the 12 conversions) is evaluated at theta = 0, denormals, 1e-8..1e-2, each Taylor/closed-form switch to the ulp on both sides and up to 1 rad, and compared with the exact value computed by mpmath at the same double inputs; AD Jacobians must be finite at 0, denormal, tiny and switch points.",
+    "Trusts mpmath. The exact Jacobian is the power series phi(+-ad_x) with ad from the structure constants of the hat basis. Bound asserted on public functions (not on raw series coefficients), for O(1) translational inputs.",
+    "DESIGN.md §3 C06",
+)
+claim(
+    "C07",
+    "Hypothesis property-based testing: 12 ordered conversions + from_Matrix entry points + from_Mrp_alternative + shadow_if_necessary vs Rodrigues / 3-2-1 reference matrices, validity predicates on outputs, Shepperd-branch and gimbal-band class coverage enforced",
+    "Exploration: generated rotations (incl. exactly 0 and pi, tie axes for every Shepperd branch, both gimbal poles and the band edge to 1e-9, q0 ~ -1 quaternions, shadow MRPs) are encoded by the harness, converted by cyecca and compared as rotation matrices (1e-9 outside the gimbal band, 2.5e-3 rad geodesic inside); outputs must be valid representatives.",
+    "Trusts the harness encoders/decoders (textbook formulas in vlib/ref.py). Euler sources near a pole are generated as explicit triples.",
+    "DESIGN.md §3 C07",
+)
+
 NOT_YET = "check not built yet in this round (work in progress; see DESIGN.md)"
 
 
